@@ -70,11 +70,129 @@ func genFmapInner() *image {
 	return im
 }
 
+// Images on which MORE THAN ONE layout probe of CalcImageOffset answers.  A full coreboot image
+// has a flash descriptor and a flash map (and parses as a bare BIOS region besides).  By the
+// property text the physical addresses belong to the BIOS region of the descriptor: its end is
+// at 4 GiB, wherever the COREBOOT area of the flash map ends.
+//   - "ifd+fmap/bootblock-area": BIOS region [base, end of image), COREBOOT area (CBFS) ending
+//     BELOW the end of the image, a BOOTBLOCK area with the FIT above it (coreboot builds with a
+//     fixed bootblock, Intel CBnT/TXT);
+//   - "ifd+fmap/classic": the COREBOOT area ends where the BIOS region ends;
+//   - "ifd-inner+fmap": a BIOS region that is not the last region of the chip and a COREBOOT
+//     area anywhere (below, across, above the end of the BIOS region): addresses and digests only;
+//   - "...+fmap-no-coreboot-area": a flash map WITHOUT a COREBOOT area beside a descriptor, an
+//     inner descriptor region or in a bare BIOS region: the flash map has no say.
+func genIFDFmap(pl fitPlan) *image {
+	switch v := rng.Intn(20); {
+	case v < 4:
+		// a flash map that lists no COREBOOT area: FMAP at 0x400 below the end (above the FIT
+		// table, below the FIT pointer), where none of the generators puts data
+		var im *image
+		switch rng.Intn(4) {
+		case 0, 1:
+			im = genBiosOnly(pl)
+		case 2:
+			im = genIFD(pl)
+		default:
+			im = genIFDInner(pl)
+		}
+		n := len(im.Bytes)
+		// (area names that are not "COREBOOT": another name, a longer one, other case, a shorter one)
+		areas := []fmapArea{{"FMAP", uint32(n - 0x400), 0x200}, {pick("RW_MISC", "COREBOOT2", "BIOS", "coreboot", "COREBOOT_RW", "COREBOO", "Coreboot"), 0x1000, uint32(n - 0x1800)}}
+		rng.Shuffle(len(areas), func(i, j int) { areas[i], areas[j] = areas[j], areas[i] })
+		putFMAP(im.Bytes, n-0x400, areas)
+		im.Lay.FmapNoCB = true
+		im.Name += "+fmap-no-coreboot-area"
+		return im
+	case v < 7:
+		// inner BIOS region, COREBOOT area anywhere
+		nblk := pick(4, 4, 6, 8)
+		if forceLen != 0 {
+			nblk = max(forceLen/0x1000, 4)
+		}
+		n := nblk * 0x1000
+		base := 1 + rng.Intn(nblk-2)
+		limit := base + rng.Intn(nblk-1-base) // inclusive, < nblk-1
+		im := &image{Name: "ifd-inner+fmap", Bytes: newPatImage(n), RegionBeg: base * 0x1000, RegionEnd: (limit + 1) * 0x1000, Inner: true, NoFit: true}
+		putIFD(im.Bytes, uint16(base), uint16(limit))
+		cbOff := 0x1000 + 0x400*rng.Intn((n-0x2000)/0x400)
+		cbEnd := cbOff + 0x400*(1+rng.Intn((n-0x800-cbOff)/0x400))
+		cb := fmapArea{"COREBOOT", uint32(cbOff), uint32(cbEnd - cbOff)}
+		areas := []fmapArea{{"FMAP", uint32(n - 0x400), 0x200}, cb}
+		rng.Shuffle(len(areas), func(i, j int) { areas[i], areas[j] = areas[j], areas[i] })
+		putFMAP(im.Bytes, n-0x400, areas)
+		im.Lay = layout{Kind: "ifd", Off: uint32(im.RegionBeg), Size: uint32(im.RegionEnd - im.RegionBeg), Fmap: &cb}
+		return im
+	}
+	nblk := pick(3, 4, 4, 6, 8)
+	if forceLen != 0 {
+		nblk = forceLen / 0x1000
+	}
+	n := nblk * 0x1000
+	base := 1 + rng.Intn(nblk-2)
+	im := &image{Name: "ifd+fmap/bootblock-area", Bytes: newPatImage(n), RegionBeg: base * 0x1000, RegionEnd: n, FitOK: true, IsCbfs: true}
+	putIFD(im.Bytes, uint16(base), uint16(nblk-1))
+	cbOff := base*0x1000 + 0x400
+	cbEnd := cbOff + 0x400*(1+rng.Intn((n-0x1000-cbOff)/0x400)) // at least 4 KiB of BOOTBLOCK area above
+	if rng.Intn(5) == 0 {
+		cbEnd = n
+		im.Name = "ifd+fmap/classic"
+	}
+	im.CbfsOff = uint32(cbOff)
+	cb := fmapArea{"COREBOOT", uint32(cbOff), uint32(cbEnd - cbOff)}
+	// the flash map: inside the BIOS region above the FIT table, or (when there is room) between
+	// the descriptor and the BIOS region
+	fmapAt := n - 0x400
+	if base >= 2 && rng.Intn(3) == 0 {
+		fmapAt = 0x1100
+	}
+	areas := []fmapArea{{"FMAP", uint32(fmapAt), 0x200}, {"RW_MISC", uint32(base * 0x1000), 0x400}, cb}
+	if cbEnd < n {
+		areas = append(areas, fmapArea{"BOOTBLOCK", uint32(cbEnd), uint32(n - cbEnd)})
+	}
+	rng.Shuffle(len(areas), func(i, j int) { areas[i], areas[j] = areas[j], areas[i] })
+	putFMAP(im.Bytes, fmapAt, areas)
+	im.Lay = layout{Kind: "ifd", Off: uint32(base * 0x1000), Size: uint32(n - base*0x1000), Fmap: &cb}
+	// CBFS files from the start of the area
+	names := []string{"fallback/romstage", "fspt.bin", "fallback/verstage", "config", "bootblock", "fallback/ramstage", "cpu_microcode_blob.bin", "bootblock2", "fspt.bin"}
+	cbfsTop := uint32(min(cbEnd, n-0x800) - cbOff)
+	rec := uint32(0)
+	for i, k := 0, 1+rng.Intn(5); i < k; i++ {
+		name := names[rng.Intn(len(names))]
+		nameField := uint32((len(name) + 1 + 15) &^ 15)
+		size := uint32(16 * (1 + rng.Intn(24)))
+		if rec+24+nameField+size+0x40 > cbfsTop {
+			break
+		}
+		im.Cbfs = append(im.Cbfs, putCBFSFile(im.Bytes, uint32(cbOff), rec, name, 0x50, size, nameField))
+		rec = (rec + 24 + nameField + size + 15) &^ 15
+		rec += 16 * uint32(rng.Intn(3))
+	}
+	// the rest of the area is one "empty" component, as cbfstool leaves it (the CBFS reader wants
+	// the last component to reach the end of the area)
+	im.Cbfs = append(im.Cbfs, putCBFSFile(im.Bytes, uint32(cbOff), rec, "", 0xffffffff, uint32(cbEnd-cbOff)-rec-40, 16))
+	// data of the FIT entries: in the BOOTBLOCK area, or in the free part of the CBFS
+	lo, hi := cbOff+int(rec)+0x40, int(uint32(cbOff)+cbfsTop)
+	if cbEnd < n && (rng.Intn(2) == 0 || hi-lo < 0x200) {
+		lo, hi = cbEnd, n-0x800
+	}
+	if hi-lo < 0x100 {
+		pl = fitPlan{others: 1}
+		lo = hi - 0x40
+	}
+	im.Fit = buildFit(im, pl, lo, hi)
+	putFIT(im.Bytes, n-0x800, im.Fit)
+	return im
+}
+
 func genForSeq() *image {
 	pl := randomPlan()
 	pl.weird = false // (segments of 2^28 bytes are the business of the single-call cases)
 	if pl.nStartup == 0 && rng.Intn(3) != 0 {
 		pl.nStartup = 1 + rng.Intn(3)
+	}
+	if rng.Intn(5) == 0 {
+		return genIFDFmap(pl)
 	}
 	switch rng.Intn(10) {
 	case 0, 1:
@@ -100,7 +218,10 @@ func cloneImage(im *image) *image {
 // mapped region (same layout), or, for a descriptor, a moved end of the BIOS region
 func deriveImage(im *image) *image {
 	c := cloneImage(im)
-	if im.Lay.Kind == "ifd" && im.NoFit == false && rng.Intn(2) == 0 {
+	// (not for an image whose segments come from the CBFS directory: their addresses are counted
+	// from the end of the FILE by the code, which the property text does not specify for a BIOS
+	// region that ends elsewhere)
+	if im.Lay.Kind == "ifd" && im.NoFit == false && !im.IsCbfs && rng.Intn(2) == 0 {
 		nblk := len(im.Bytes) / 0x1000
 		base := im.RegionBeg / 0x1000
 		limit := base + rng.Intn(nblk-base) // inclusive
